@@ -112,6 +112,10 @@ def _format_binary_recurse(something) -> bytes:
             something = something.encode("utf8")
         return b's' + struct.pack('!i', len(something)) + something
     elif isinstance(something, datetime.datetime):
+        if something.tzinfo is None:
+            # LLSD dates are UTC, naive datetimes are UTC everywhere else in llsd.
+            # timestamp() would interpret them in the process' local timezone.
+            something = something.replace(tzinfo=datetime.timezone.utc)
         return b'd' + struct.pack('<d', something.timestamp())
     elif isinstance(something, datetime.date):
         seconds_since_epoch = calendar.timegm(something.timetuple())
